@@ -20,12 +20,40 @@ theorem lookup_mem {t : Int} {d : String} :
       simp_all
     · exact List.mem_cons_of_mem _ (ih h)
 
+/-- the regenerated format literal has exactly one `%d` verb, between these two parts -/
+theorem unknownFormat_parts :
+    splitD Facts.appExcUnknownFormat.toList [] = ["unknown exception type [".toList, "]".toList] := by decide
+
+theorem unknownTypeText_eq (t : Int) :
+    unknownTypeText t = bytesOf "unknown exception type [" ++ bytesOf (toString t) ++ bytesOf "]" := by
+  simp only [unknownTypeText, sprintfD, unknownFormat_parts, joinD, String.ofList_toList, List.append_assoc]
+
 theorem unknownTypeText_ne_nil (t : Int) : unknownTypeText t ≠ [] := by
   have h : bytesOf "unknown exception type [" ≠ [] := by decide
   intro h0
-  unfold unknownTypeText at h0
+  rw [unknownTypeText_eq] at h0
   simp only [List.append_eq_nil_iff] at h0
   exact h h0.1.1
+
+/-- every name in the regenerated order of PrependError's type tests is one the model knows -/
+theorem prependErrorOrder_known :
+    ∀ ty ∈ Facts.prependErrorOrder,
+      ty ∈ ["*TransportException", "*ProtocolException", "*ApplicationException", "tException"] := by decide
+
+/-- With the regenerated order of type tests, PrependError is this case table (a reordering in the
+    source that changes any result — e.g. `tException` first — makes this proof fail). -/
+theorem prependError_eq (fresh : Nat) (p : Bytes) (e : Err) :
+    prependError fresh p e =
+      match e with
+      | .transport _ t m => .transport fresh t (p ++ appText t m)
+      | .protocol _ t m => .protocol fresh t (p ++ appText t m)
+      | .protocolW _ t m _ => .protocol fresh t (p ++ appText t m)
+      | .application _ t m => .application fresh t (p ++ appText t m)
+      | .foreign _ t tx => .application fresh t (p ++ tx)
+      | .plain _ msg => .plain fresh (p ++ msg)
+      | .wrapped _ msg _ => .plain fresh (p ++ msg) := by
+  cases e <;>
+    simp [prependError, Facts.prependErrorOrder, prependDispatch, prependBranch, Err.typeId, Err.text]
 
 /-- `ApplicationException.Error()` never returns the empty string -/
 theorem appText_ne_nil (t : Int) (m : Bytes) : appText t m ≠ [] := by
